@@ -412,7 +412,7 @@ func TestC13(t *testing.T) {
 			kit.EvalN(2)
 		}
 	}
-	kit.SetRapid(kit.N(160000, 16000000))
+	kit.SetRapid(kit.N(160000, 4000000))
 	rapid.Check(t, kit.Prop("C13", func(t *rapid.T) {
 		m := genC13Msg(t)
 		wire, err := m.Pack()
